@@ -278,21 +278,31 @@ def parseCompact (data : Bytes) : PO Message :=
              signatures := [{ prot := some h, rawProtected := b64header,
                               b64signature := b64signature, signature := signature }] }
 
-/-- one element of `signatures` (jws.go:369-431).  `i` is its index, `nb64` the message flag so
-    far; returns the signature and the flag afterwards. -/
+/-- the `b64` setting of a signature entry by its OWN header: that of its protected header, the
+    default (`b64` = true, i.e. `nb64 = false`) when it has none (RFC 7797 §3) -/
+def Signature.nb64 (s : Signature) : Bool :=
+  match s.prot with
+  | some p => p.nb64
+  | none => false
+
+/-- one element of `signatures` (jws.go `UnmarshalJSON`, the loop body).  `i` is its index, `nb64`
+    the message flag so far; returns the signature and the flag afterwards.  EVERY entry takes part in
+    the b64 consistency check — an entry without a protected header with the default value. -/
 def parseSig (i : Nat) (nb64 : Bool) (sigAny : Wire) : PO (Signature × Bool) :=
   match sigAny with
   | .obj kvs => do
-    -- protected header
-    let (prot, rawProt, nb64') ← (match Wire.lookup "protected" kvs with
-      | none => pure (none, [], nb64)
+    -- protected header; `nbE` = this entry's own b64 setting
+    let (prot, rawProt, nbE) ← (match Wire.lookup "protected" kvs with
+      | none => pure (none, [], false)
       | some (.str ps) => do
         let raw ← b64Decode (strBytes ps)
         let h ← unmarshalHeader raw
-        if i == 0 then pure (some h, strBytes ps, h.nb64)
-        else if nb64 != h.nb64 then PO.fail "parse"
-        else pure (some h, strBytes ps, nb64)
+        pure (some h, strBytes ps, h.nb64)
       | some _ => PO.fail "parse" : PO (Option Header × Bytes × Bool))
+    -- RFC 7797 §3: the "b64" value must be the same for all signatures
+    let nb64' ← (if i == 0 then pure nbE
+      else if nb64 != nbE then PO.fail "parse"
+      else pure nb64 : PO Bool)
     -- unprotected header
     let hdr ← (match Wire.lookup "header" kvs with
       | none => pure none
